@@ -87,6 +87,39 @@ def check(run):
                     run.sample(dict(desc, galaxies=ngal, thread_counts='1..16'))
                 if run.too_many():
                     return
+    # ---- exhaustive small-size sweep: every table size 1..Nmax x every thread count, with *every* host and particle
+    # selected (random 0, wide first slice), so that a host or particle falling outside all thread blocks is a missing row
+    Nmax = 130 if run.quick else 700
+    tr1 = {'LRG': hodref.gen_tracers(rng, ('LRG',), fancy=False)['LRG']}
+    tr1['LRG'].update(logM_cut=11.0, logM1=11.5, sigma=0.3, kappa=0.1, ic=1.0)
+    params1 = dict(z=0.5, velz2kms=100.0, Lbox=2000.0, origin=None, Mpart=2.1e9, chunk=-1)
+    halo_all, part_all = hodref.gen_tables(rng, Nmax, Nmax, lbox=2000.0, with_env=False)
+    halo_all['hmass'][:] = 1e14
+    halo_all['hrandoms'][:] = 0.0
+    halo_all['hmultis'][:] = 1.0
+    part_all.update(phmass=np.full(Nmax, 1e14), prandoms=np.zeros(Nmax), pweights=np.full(Nmax, 0.3), pinds=np.arange(Nmax, dtype=np.int64), phid=halo_all['hid'].copy(), phvel=halo_all['hvel'].copy())
+    for N in range(1, Nmax + 1):
+        h = {k2: v[:N] for k2, v in halo_all.items()}
+        p = {k2: v[:N] for k2, v in part_all.items()}
+        base = None
+        for nt in range(1, 17):
+            run.ev()
+            with warnings.catch_warnings():
+                warnings.simplefilter('ignore')
+                got = GH.gen_gal_cat(h, p, tr1, params1, Nthread=nt, enable_ranks=False, rsd=False)['LRG']
+            if int(got['Ncent']) != N or len(got['id']) != 2 * N:
+                run.violation('size-sweep-row-missing', dict(N=N, Nthread=nt, Ncent=int(got['Ncent']), galaxies=len(got['id']), expected_galaxies=2 * N))
+                break
+            if nt == 1:
+                base = got
+            elif any(not np.array_equal(np.asarray(got[c]), np.asarray(base[c])) for c in COLS):
+                run.violation('catalogue-depends-on-nthread', dict(N=N, Nthread=nt, sweep='all-selected'))
+                break
+        run.count('size_sweep_sizes')
+        if N % 16 == 0:
+            run.nt(('size-sweep', N))
+        if run.too_many():
+            return
     # ---- prange write-set monitor on the interpreted count/fill passes (decides all schedules of each case)
     from .. import hodrace
 
